@@ -723,9 +723,11 @@ def annotate_closure(text, start, nth, header_lines, tagger):
         if len(same) == 1:
             pick = same[0]
         elif pick is None:
-            raise ExtractError('closure #%d not found' % nth)
+            # the function has fewer closures than the template annotates and none is left over for this annotation (a closure
+            # was replaced by a match / an early return): nothing to annotate; whatever replaced it is verified as it stands
+            return None
     if pick is None:
-        raise ExtractError('closure #%d not found' % nth)
+        return None
     ps, pe, bs, be = pick
     body = text[bs:be]
     if not body.lstrip().startswith('{'):
